@@ -1,7 +1,7 @@
 #!/usr/bin/env python3
 """Evaluate one seeded defect against the checks.
 
-usage: seedeval.py <seed dir> [--checks C01,C10] [--tier quick] [--keep]
+usage: seedeval.py <seed dir> [--checks C01,C10] [--tier quick] [--keep] [--base <rev of /repo>]
 
 The seed directory holds patch.diff, meta.json and a demonstration.  The patch
 is applied to a scratch worktree of /repo's HEAD (never to /repo itself while
@@ -27,6 +27,7 @@ def main():
     checks = None
     tier = "quick"
     keep = False
+    base = "HEAD"
     i = 1
     while i < len(args):
         if args[i] == "--checks":
@@ -34,6 +35,9 @@ def main():
             i += 2
         elif args[i] == "--tier":
             tier = args[i + 1]
+            i += 2
+        elif args[i] == "--base":
+            base = args[i + 1]
             i += 2
         elif args[i] == "--keep":
             keep = True
@@ -48,8 +52,8 @@ def main():
     sh("git -C /repo worktree remove --force " + wt)
     shutil.rmtree(wt, ignore_errors=True)
     os.makedirs("/var/tmp/seedeval", exist_ok=True)
-    rc, out = sh("git -C /repo worktree add --detach %s HEAD" % wt)
-    res = {"seed": name, "property": meta["property"], "checks": {}}
+    rc, out = sh("git -C /repo worktree add --detach %s %s" % (wt, base))
+    res = {"seed": name, "property": meta["property"], "checks": {}, "base": base}
     if rc != 0:
         res["error"] = "worktree: " + out
         print(json.dumps(res, indent=1))
